@@ -37,7 +37,7 @@ func Fill(alpha string, n int) string {
 }
 
 var Names = []string{"", "a", ">", "@x", "+", "a>b@+"}
-var Descs = []string{"", "d", "two words", ">", "@", "+x"}
+var Descs = []string{"", "d", "two words", ">", "@", "+x", "two  blanks"}
 
 // Encodings with a Phred offset.
 var Encodings = []alphabet.Encoding{alphabet.Sanger, alphabet.Illumina1_3, alphabet.Illumina1_5, alphabet.Illumina1_8, alphabet.Illumina1_9}
